@@ -135,14 +135,25 @@ func (r *Rng) spellText(s string, o spellOpts, fixed *Rng) string {
 			sb.WriteByte(s[i])
 			continue
 		}
-		h := fmt.Sprintf("%02X", s[i])
-		if src.Chance(1, 2) {
-			h = strings.ToLower(h)
+		// nested encoding: at every level any character of the current spelling (the '%' and the
+		// hex digits alike) may itself be escaped
+		cur := string(s[i : i+1])
+		for k := 0; k < d; k++ {
+			var nb strings.Builder
+			for j := 0; j < len(cur); j++ {
+				if k == 0 || src.Chance(1, 2) {
+					h := fmt.Sprintf("%02X", cur[j])
+					if src.Chance(1, 2) {
+						h = strings.ToLower(h)
+					}
+					nb.WriteString("%" + h)
+				} else {
+					nb.WriteByte(cur[j])
+				}
+			}
+			cur = nb.String()
 		}
-		for k := 1; k < d; k++ {
-			h = "25" + h
-		}
-		sb.WriteString("%" + h)
+		sb.WriteString(cur)
 	}
 	return sb.String()
 }
@@ -245,6 +256,9 @@ func rawQuery(p *Prof, input string) string {
 		return ""
 	}
 	o := implParse(v.Parser, nil, input)
+	if o.Kind == "E" && strings.HasPrefix(o.Err, "21:") && v.DefaultScheme != "" {
+		o = implParse(v.Parser, nil, v.DefaultScheme+"://"+input)
+	}
 	return o.Fields0(fQuery)
 }
 
